@@ -196,7 +196,7 @@ CLAIMED["C15"] = {
             "unionAt_is_builder: what the tool's RangeMocBuilder computes for every capacity; same selection as query) are proved and driven too (moc regions, identifier lists, positions; output depths below / at / above the stored ones). "
             "The defect (false negatives / false positives for regions deeper than depth 13) was repaired.",
     "design_ref": "DESIGN.md §4 C15, §10",
-    "note": TB + "; cone geometry not driven; cdshealpix hash of a position used as oracle",
+    "note": TB + "; cdshealpix used as oracle for the hash of a position and for the cone region (not for the selection)",
     "technique": "Lean 4 proof (exactness of degrade-then-convert) + correspondence with the real binary",
 }
 CLAIMED["C16"] = {
